@@ -468,6 +468,45 @@ def small_y_edwards_point(c):
         y += 1
 
 
+def near_miss_points(c, r):
+    """Off-curve points whose two sides of the curve equation (canonical residues) differ by t * 2^w only - they agree in
+    the low 32 / 64 / 128 bits - or by a small integer (they agree in all but the lowest bits).  A comparison that looks
+    at a part of the field element accepts them.  -> [(label, (x, y))]"""
+    from ref import primes
+    p = c.p
+    out = []
+    for w, lab in ((32, "low32"), (64, "low64"), (128, "low128"), (0, "high")):
+        for _attempt in range(40):
+            x = r.randrange(2, p)
+            found = None
+            for t in range(1, 60):
+                delta = t << w
+                if c.kind == "weierstrass":
+                    R = (x * x * x + c.a * x + c.b) % p
+                    L = R + delta
+                    if L >= p:
+                        break
+                    y = primes.sqrt_mod(L, p)
+                else:
+                    A = x * x % p
+                    cc, e = (1 - c.d * A) % p, (c.a * A - 1) % p        # L - R = cc * u + e  (mod p), u = y^2
+                    if cc == 0:
+                        break
+                    u = (delta - e) * pow(cc, -1, p) % p
+                    L, R = (c.a * A + u) % p, (1 + c.d * A * u) % p
+                    if L - R != delta:
+                        continue
+                    y = primes.sqrt_mod(u, p)
+                if y is not None:
+                    found = (x, y)
+                    break
+            if found:
+                out.append((lab, found))
+                break
+    return out
+
+
+
 def ecc_cases(c, r):
     """(label, kwargs without curve, valid, what, statement class)"""
     from ref import ec
@@ -523,6 +562,9 @@ def ecc_cases(c, r):
                 out.append(("off-curve/" + lab, dict(point_x=P[0], point_y=P[1]), X, "point-off-curve", OC))
                 if lab in ("y-plus-1", "twist-abscissa"):
                     out.append(("off-curve-with-d/" + lab, dict(d=d1, point_x=P[0], point_y=P[1]), X, "point-off-curve", OC))
+        for lab, P in near_miss_points(c, r):
+            if not ec.w_on_curve(c, P):
+                out.append(("off-curve/near-miss-" + lab, dict(point_x=P[0], point_y=P[1]), X, "point-off-curve", OC))
         sx, sy = small_x_point(c)
         cands = [("small-x-plus-p", (sx + p, sy)), ("x-plus-p", (x + p, y)), ("y-plus-p", (x, y + p)), ("x-and-y-plus-p", (x + p, y + p))]
         z = ec.w_lift_x(c, 0, 0)
@@ -571,6 +613,10 @@ def ecc_cases(c, r):
                 out.append(("off-curve/" + lab, dict(point_x=P[0], point_y=P[1]), X, "point-off-curve", OC))
                 if lab == "y-plus-1":
                     out.append(("off-curve-with-seed/" + lab, dict(seed=s1, point_x=P[0], point_y=P[1]), X, "point-off-curve", OC))
+        for lab, P in near_miss_points(c, r):
+            if not ec.ed_on_curve(c, P):
+                out.append(("off-curve/near-miss-" + lab, dict(point_x=P[0], point_y=P[1]), X, "point-off-curve", OC))
+                out.append(("off-curve-with-seed/near-miss-" + lab, dict(seed=s1, point_x=P[0], point_y=P[1]), X, "point-off-curve", OC))
         sx, sy = small_y_edwards_point(c)
         for lab, P in (("x-plus-p", (x + p, y)), ("y-plus-p", (x, y + p)), ("x-and-y-plus-p", (x + p, y + p)), ("small-y-plus-p", (sx, sy + p)),
                        ("neutral-plus-p", (p, 1 + p)), ("x-is-p-y-is-1", (p, 1))):
